@@ -106,7 +106,12 @@ theorem step_erase (k : List K) (s : State) :
         by_cases hf : (performIn rs [] s).2.2 = true
         · simp only [hf, if_true]; rfl
         · simp only [hf]
-          rw [undoIn_comm State.erase (fun _ _ => rfl)]; rfl
+          rw [undoIn_comm State.erase (fun _ _ => rfl)]
+          have hx : redirErrorExits s.erase c = redirErrorExits s c := rfl
+          rw [hx]
+          by_cases hx2 : redirErrorExits s c = true
+          · simp only [hx2, if_true]; rfl
+          · simp only [hx2]; rfl
     | undo saved =>
       simp only [step]
       rw [undoIn_comm State.erase (fun _ _ => rfl)]; rfl
